@@ -291,11 +291,15 @@ class Twin(object):
         return self.new_si(mutable=pool is not self.imm_sis)
 
     # ---- immutable ops -----------------------------------------------------------
-    def op_allocate(self):
+    def op_allocate(self, si=None, shares=None, size=None, kind="allocate"):
         r = self.r
-        si = self.pick_si() if r.random() < 0.35 else self.new_si()
-        shares = set(r.sample(range(5), r.choice([1, 2, 3])))
-        if self.big and r.random() < 0.5:
+        if si is None:
+            si = self.pick_si() if r.random() < 0.35 else self.new_si()
+        if shares is None:
+            shares = set(r.sample(range(5), r.choice([1, 2, 3])))
+        if size is not None:
+            pass
+        elif self.big and r.random() < 0.5:
             size = r.choice([65536, 65537, 70000, 131072, 140001])
         else:
             size = r.choice([1, 2, 10, 33, 64, 100, 150])
@@ -323,7 +327,7 @@ class Twin(object):
                 self.patch_log[(si, sh)] = []
                 self.cover[(si, sh)] = bytearray(size)
             b = ("ok", (set(already), set(writers)))
-        self.compare("allocate", {"si": si.hex(), "shares": sorted(shares), "size": size}, a, b)
+        self.compare(kind, {"si": si.hex(), "shares": sorted(shares), "size": size}, a, b)
 
     def op_write(self):
         r = self.r
@@ -790,6 +794,21 @@ class Twin(object):
             self.do_rtw(si, sec(), {sh: ([(o, n, spec)], [write], None)}, [(0, 40)], "rtw-testv-" + label)
         self.op_slot_readv_of(si, [], [(0, 64)])
 
+    def scenario_allocate_already_have(self):
+        """Allocation requests whose share numbers do not cover the shares the server already holds
+        (complete and in progress): `already-have` / alreadygot must be the same on both paths."""
+        r = self.r
+        si = self.new_si()
+        size = r.choice([10, 33])
+        self.op_allocate(si=si, shares={0, 1, 4}, size=size, kind="allocate-first")
+        for sh in (0, 1):
+            key = (si, sh)
+            if key in self.writersB:
+                self.do_write(key, 0, self.base_data[key], "write")             # shares 0 and 1 complete, 4 stays in progress
+        for shares in ({2}, {1, 3}, {4}, {0, 1}, {5, 6}):
+            self.op_allocate(si=si, shares=set(shares), size=size, kind="allocate-partial-overlap")
+        self.op_list()
+
     def scenario_shrink_then_read(self):
         """A mutable share shrunk with new_length, then range reads that cross / start past the NEW end
         (and again after growing back below the old size)."""
@@ -925,6 +944,8 @@ class Twin(object):
         self.op_allocate()
         self.step = "scenario-test-vector-sizes"
         self.scenario_test_vector_sizes()
+        self.step = "scenario-allocate-already-have"
+        self.scenario_allocate_already_have()
         self.step = "scenario-shrink-then-read"
         self.scenario_shrink_then_read()
         if not self.compare_states("after the scenarios"):
